@@ -523,6 +523,10 @@ def mode_robust(req_cases):
         def do_gut():
             gut[:] = sio.get_untrusted_types(data=data)
         call("get_untrusted_types", do_gut)
+        if cfg.get("only_audit"):
+            rec["changed"] = {}
+            out.append(rec)
+            continue
         call("loads(None)", lambda: sio.loads(data, trusted=None))
         call("loads(reported)", lambda: sio.loads(data, trusted=list(gut)))
         buf = io.StringIO()
